@@ -76,6 +76,7 @@ class Interp:
         self.call_models = call_models or {}
         self.fresh = fresh
         self.enum_results = enum_results
+        self.int_symbols = False
         self.start_block = 0
 
     # ---- driver: enumerate choice sequences -----------------------------------------------------
@@ -257,6 +258,10 @@ class Interp:
         if v and v[0] == "sym":
             parts = v[1].split(".")
             return parts[0], tuple(parts[1:])
+        if v and v[0] == "const" and re.fullmatch(r"-?[0-9][0-9_.eE+-]*f(?:32|64)", str(v[1])):
+            return "k" + str(v[1]).replace(".", "_"), ()       # a float literal acts as a named constant symbol (k0f64 ...)
+        if v and v[0] == "int" and self.int_symbols:
+            return "k" + str(v[1]), ()
         return None, None
 
     def _compare(self, a, b, rel, what="cmp"):
